@@ -1046,7 +1046,10 @@ void WrXErrorPos(
     char const*   pErrorMsg;
     tExpectError* pExpectError;
 
-    pExpectError = FindAndTakeExpectError(Num);
+    /* a fatal error ends the run and cannot be expected away: the callers
+       rely on not getting back from it */
+
+    pExpectError = (Num < 10000) ? FindAndTakeExpectError(Num) : NULL;
     if (pExpectError) {
         free(pExpectError);
         return;
